@@ -1,23 +1,584 @@
 //go:build verif
 
+// Harness c14: untrusted keyset input (property C14).
+//
+// Valid proto keys of every key type are combined into keysets and structurally mutated; every
+// keyset goes through keyset.Validate, insecurecleartextkeyset.Read (MemReaderWriter, binary and
+// JSON readers, and the encrypted-keyset reader), keyset.NewHandleWithNoSecrets /
+// ReadWithNoSecrets. The accept/reject decision and the resulting entries are printed next to the
+// line the Lean model (TinkVerif/Model/Keyset.lean) is given; the per-key parser verdict is
+// passed to the model as an oracle bit. Go-side property oracles: no call panics, every accepted
+// handle is well-formed, every accepted handle is used with every primitive factory and each
+// primitive that is created must be self-consistent; keys below the library's minimum strengths
+// must not give a usable primitive; random bytes / JSON must never panic.
 package main
 
 import (
-	"fmt"
-	"time"
+	"os"
+	"runtime/pprof"
+	"strings"
 
+	"github.com/tink-crypto/tink-go/v2/aead"
 	"github.com/tink-crypto/tink-go/v2/internal/verifharness/hlib"
 	"github.com/tink-crypto/tink-go/v2/internal/verifharness/kslib"
+	"github.com/tink-crypto/tink-go/v2/keyset"
+	"github.com/tink-crypto/tink-go/v2/tink"
+	"google.golang.org/protobuf/proto"
+
+	tinkpb "github.com/tink-crypto/tink-go/v2/proto/tink_go_proto"
 )
+
+type world struct {
+	o         *hlib.Out
+	rng       *hlib.Rng
+	pool      *kslib.Pool
+	master    tink.AEAD
+	weakRSA   []*kslib.RSAParts
+	slhBudget int
+	hugeBudget int
+	jsonFlip  bool
+	byType    map[string][]int // pool indices per Type
+}
+
+func clonePK(pk *kslib.PoolKey) *tinkpb.KeyData { return proto.Clone(pk.KD).(*tinkpb.KeyData) }
+
+// ---------- generation ----------
+
+type gen struct {
+	ks    *tinkpb.Keyset
+	src   []*kslib.PoolKey // pool key behind each entry (nil once replaced by garbage)
+	kinds []string         // mutation labels applied
+}
+
+func (w *world) pickFrom(idx []int) *kslib.PoolKey {
+	for try := 0; ; try++ {
+		pk := w.pool.Keys[idx[w.rng.Intn(len(idx))]]
+		if pk.Slow && try < 4 && !w.rng.Chance(12) {
+			continue
+		}
+		return pk
+	}
+}
+
+func (w *world) anyKey() *kslib.PoolKey {
+	all := make([]int, len(w.pool.Keys))
+	for i := range all {
+		all[i] = i
+	}
+	return w.pickFrom(all)
+}
+
+func (w *world) newID(g *gen) uint32 {
+	for {
+		id := w.rng.KeyID()
+		dup := false
+		for _, k := range g.ks.Key {
+			if k != nil && k.KeyId == id {
+				dup = true
+			}
+		}
+		if !dup {
+			return id
+		}
+	}
+}
+
+func (w *world) entry(g *gen, pk *kslib.PoolKey) *tinkpb.Keyset_Key {
+	st := tinkpb.KeyStatusType_ENABLED
+	switch r := w.rng.Intn(100); {
+	case r < 14:
+		st = tinkpb.KeyStatusType_DISABLED
+	case r < 26:
+		st = tinkpb.KeyStatusType_DESTROYED
+	}
+	pre := pk.Prefix
+	if w.rng.Chance(18) {
+		pre = tinkpb.OutputPrefixType(1 + w.rng.Intn(4))
+	}
+	return &tinkpb.Keyset_Key{KeyData: clonePK(pk), Status: st, KeyId: w.newID(g), OutputPrefixType: pre}
+}
+
+func (w *world) genKeyset() *gen {
+	g := &gen{ks: &tinkpb.Keyset{}}
+	n := []int{1, 1, 1, 1, 1, 1, 2, 2, 2, 2, 2, 3, 3, 3, 3, 4, 4, 5, 5, 6}[w.rng.Intn(20)]
+	var idx []int
+	switch r := w.rng.Intn(100); {
+	case r < 62: // one primitive class
+		idx = w.pool.ByClass[w.pool.Classes[w.rng.Intn(len(w.pool.Classes))]]
+	case r < 72: // private keys and public keys of one family
+		fam := []string{"sig", "hyb", "jwtsig"}[w.rng.Intn(3)]
+		idx = append(append([]int{}, w.pool.ByClass[fam]...), w.pool.ByClass[fam+"pub"]...)
+	case r < 80: // one key type
+		idx = w.byType[w.anyKey().Type]
+	default:
+		for i := range w.pool.Keys {
+			idx = append(idx, i)
+		}
+	}
+	for i := 0; i < n; i++ {
+		pk := w.pickFrom(idx)
+		g.ks.Key = append(g.ks.Key, w.entry(g, pk))
+		g.src = append(g.src, pk)
+	}
+	// primary: usually an enabled key
+	var en []uint32
+	for _, k := range g.ks.Key {
+		if k.Status == tinkpb.KeyStatusType_ENABLED {
+			en = append(en, k.KeyId)
+		}
+	}
+	switch r := w.rng.Intn(100); {
+	case r < 88 && len(en) > 0:
+		g.ks.PrimaryKeyId = en[w.rng.Intn(len(en))]
+	case r < 88: // no enabled key: make one
+		k := g.ks.Key[w.rng.Intn(n)]
+		k.Status = tinkpb.KeyStatusType_ENABLED
+		g.ks.PrimaryKeyId = k.KeyId
+	case r < 95:
+		g.ks.PrimaryKeyId = g.ks.Key[w.rng.Intn(n)].KeyId // whatever its status
+	default:
+		g.ks.PrimaryKeyId = w.newID(g) // absent
+	}
+	return g
+}
+
+func (g *gen) primaryIdx() int {
+	for i, k := range g.ks.Key {
+		if k != nil && k.KeyId == g.ks.PrimaryKeyId {
+			return i
+		}
+	}
+	return -1
+}
+
+// target picks the key a mutation applies to (the primary half of the time).
+func (w *world) target(g *gen) int {
+	if len(g.ks.Key) == 0 {
+		return -1
+	}
+	if p := g.primaryIdx(); p >= 0 && w.rng.Chance(50) {
+		return p
+	}
+	return w.rng.Intn(len(g.ks.Key))
+}
+
+func (w *world) replace(g *gen, t int, pk *kslib.PoolKey) {
+	if g.ks.Key[t] == nil {
+		g.ks.Key[t] = &tinkpb.Keyset_Key{Status: tinkpb.KeyStatusType_ENABLED, KeyId: w.newID(g)}
+	}
+	g.ks.Key[t].KeyData = clonePK(pk)
+	g.ks.Key[t].OutputPrefixType = pk.Prefix
+	g.src[t] = pk
+}
+
+func (w *world) poolWhere(f func(*kslib.PoolKey) bool) []int {
+	var idx []int
+	for i, pk := range w.pool.Keys {
+		if f(pk) {
+			idx = append(idx, i)
+		}
+	}
+	return idx
+}
+
+var unknownEnums = []int32{0, 5, 6, 7, 99, 1<<31 - 1}
+
+type mutation struct {
+	name   string
+	weight int
+	f      func(w *world, g *gen) string // returns the label ("" = not applicable)
+}
+
+func kd(g *gen, t int) *tinkpb.KeyData { return g.ks.Key[t].GetKeyData() }
+
+var mutations = []mutation{
+	{"empty-keyset", 2, func(w *world, g *gen) string { g.ks.Key = nil; g.src = nil; return "empty-keyset" }},
+	{"missing-primary", 3, func(w *world, g *gen) string { g.ks.PrimaryKeyId = w.newID(g); return "missing-primary" }},
+	{"primary-disabled", 3, func(w *world, g *gen) string {
+		p := g.primaryIdx()
+		if p < 0 {
+			return ""
+		}
+		g.ks.Key[p].Status = tinkpb.KeyStatusType_DISABLED
+		return "primary-disabled"
+	}},
+	{"primary-destroyed", 3, func(w *world, g *gen) string {
+		p := g.primaryIdx()
+		if p < 0 {
+			return ""
+		}
+		g.ks.Key[p].Status = tinkpb.KeyStatusType_DESTROYED
+		return "primary-destroyed"
+	}},
+	{"all-disabled", 2, func(w *world, g *gen) string {
+		for _, k := range g.ks.Key {
+			k.Status = tinkpb.KeyStatusType(w.rng.Pick(2, 3))
+		}
+		return "all-disabled"
+	}},
+	{"duplicate-primary", 3, func(w *world, g *gen) string {
+		p := g.primaryIdx()
+		if p < 0 {
+			return ""
+		}
+		c := proto.Clone(g.ks.Key[p]).(*tinkpb.Keyset_Key)
+		if w.rng.Bool() {
+			pk := w.anyKey()
+			c.KeyData, c.OutputPrefixType = clonePK(pk), pk.Prefix
+			g.src = append(g.src, pk)
+		} else {
+			g.src = append(g.src, g.src[p])
+		}
+		g.ks.Key = append(g.ks.Key, c)
+		if w.rng.Bool() { // the duplicate first
+			l := len(g.ks.Key) - 1
+			g.ks.Key[0], g.ks.Key[l] = g.ks.Key[l], g.ks.Key[0]
+			g.src[0], g.src[l] = g.src[l], g.src[0]
+		}
+		return "duplicate-primary"
+	}},
+	{"duplicate-id", 4, func(w *world, g *gen) string {
+		if len(g.ks.Key) < 2 {
+			pk := w.anyKey()
+			g.ks.Key = append(g.ks.Key, w.entry(g, pk))
+			g.src = append(g.src, pk)
+		}
+		i := w.rng.Intn(len(g.ks.Key))
+		j := (i + 1 + w.rng.Intn(len(g.ks.Key)-1)) % len(g.ks.Key)
+		g.ks.Key[j].KeyId = g.ks.Key[i].KeyId
+		return "duplicate-id"
+	}},
+	{"unknown-status", 4, func(w *world, g *gen) string {
+		t := w.target(g)
+		if t < 0 {
+			return ""
+		}
+		g.ks.Key[t].Status = tinkpb.KeyStatusType(unknownEnums[w.rng.Intn(len(unknownEnums))])
+		if g.ks.Key[t].Status == 5 || g.ks.Key[t].Status == 6 || g.ks.Key[t].Status == 7 {
+			g.ks.Key[t].Status -= 1 // 4, 5, 6: the first numbers past DESTROYED
+		}
+		return "unknown-status"
+	}},
+	{"unknown-prefix", 4, func(w *world, g *gen) string {
+		t := w.target(g)
+		if t < 0 {
+			return ""
+		}
+		g.ks.Key[t].OutputPrefixType = tinkpb.OutputPrefixType(unknownEnums[w.rng.Intn(len(unknownEnums))])
+		return "unknown-prefix"
+	}},
+	{"unknown-material", 4, func(w *world, g *gen) string {
+		t := w.target(g)
+		if t < 0 || kd(g, t) == nil {
+			return ""
+		}
+		kd(g, t).KeyMaterialType = tinkpb.KeyData_KeyMaterialType(unknownEnums[w.rng.Intn(len(unknownEnums))])
+		return "unknown-material"
+	}},
+	{"wrong-material", 4, func(w *world, g *gen) string {
+		t := w.target(g)
+		if t < 0 || kd(g, t) == nil {
+			return ""
+		}
+		old := kd(g, t).KeyMaterialType
+		for kd(g, t).KeyMaterialType == old {
+			kd(g, t).KeyMaterialType = tinkpb.KeyData_KeyMaterialType(1 + w.rng.Intn(4))
+		}
+		return "wrong-material"
+	}},
+	{"negative-enum", 1, func(w *world, g *gen) string {
+		t := w.target(g)
+		if t < 0 || kd(g, t) == nil {
+			return ""
+		}
+		switch w.rng.Intn(3) {
+		case 0:
+			g.ks.Key[t].Status = tinkpb.KeyStatusType(-1 - w.rng.Intn(3))
+		case 1:
+			g.ks.Key[t].OutputPrefixType = tinkpb.OutputPrefixType(-1 - w.rng.Intn(3))
+		default:
+			kd(g, t).KeyMaterialType = tinkpb.KeyData_KeyMaterialType(-1 - w.rng.Intn(3))
+		}
+		return "negative-enum"
+	}},
+	{"nil-keydata", 3, func(w *world, g *gen) string {
+		t := w.target(g)
+		if t < 0 {
+			return ""
+		}
+		g.ks.Key[t].KeyData = nil
+		g.src[t] = nil
+		return "nil-keydata"
+	}},
+	{"empty-keydata", 2, func(w *world, g *gen) string {
+		t := w.target(g)
+		if t < 0 {
+			return ""
+		}
+		g.ks.Key[t].KeyData = &tinkpb.KeyData{}
+		g.src[t] = nil
+		return "empty-keydata"
+	}},
+	{"value-truncated", 8, func(w *world, g *gen) string {
+		t := w.target(g)
+		if t < 0 || kd(g, t) == nil || len(kd(g, t).Value) == 0 {
+			return ""
+		}
+		v := kd(g, t).Value
+		cut := w.rng.Intn(len(v))
+		if w.rng.Chance(40) { // near the end: inside the last field
+			cut = len(v) - 1 - w.rng.Intn(min(len(v), 6))
+		}
+		kd(g, t).Value = append([]byte(nil), v[:cut]...)
+		return "value-truncated"
+	}},
+	{"value-garbage", 4, func(w *world, g *gen) string {
+		t := w.target(g)
+		if t < 0 || kd(g, t) == nil {
+			return ""
+		}
+		kd(g, t).Value = w.rng.Bytes(w.rng.Pick(1, 2, 8, 16, 32, 34, 64, 100, 300))
+		return "value-garbage"
+	}},
+	{"value-empty", 3, func(w *world, g *gen) string {
+		t := w.target(g)
+		if t < 0 || kd(g, t) == nil {
+			return ""
+		}
+		kd(g, t).Value = nil
+		return "value-empty"
+	}},
+	{"value-extended", 3, func(w *world, g *gen) string {
+		t := w.target(g)
+		if t < 0 || kd(g, t) == nil {
+			return ""
+		}
+		kd(g, t).Value = append(append([]byte(nil), kd(g, t).Value...), w.rng.Bytes(1+w.rng.Intn(12))...)
+		return "value-extended"
+	}},
+	{"value-bitflip", 6, func(w *world, g *gen) string {
+		t := w.target(g)
+		if t < 0 || kd(g, t) == nil || len(kd(g, t).Value) == 0 {
+			return ""
+		}
+		v := append([]byte(nil), kd(g, t).Value...)
+		pos := w.rng.Intn(len(v))
+		if w.rng.Chance(40) {
+			pos = w.rng.Intn(min(len(v), 12)) // the header: tags, versions, parameters
+		}
+		v[pos] ^= 1 << uint(w.rng.Intn(8))
+		kd(g, t).Value = v
+		return "value-bitflip"
+	}},
+	{"unknown-typeurl", 4, func(w *world, g *gen) string {
+		t := w.target(g)
+		if t < 0 || kd(g, t) == nil {
+			return ""
+		}
+		kd(g, t).TypeUrl = []string{"type.googleapis.com/verif.NoSuchKey", "type.googleapis.com/google.crypto.tink.AesGcmKeyX",
+			"google.crypto.tink.AesGcmKey", "x", "type.googleapis.com/"}[w.rng.Intn(5)]
+		return "unknown-typeurl"
+	}},
+	{"empty-typeurl", 2, func(w *world, g *gen) string {
+		t := w.target(g)
+		if t < 0 || kd(g, t) == nil {
+			return ""
+		}
+		kd(g, t).TypeUrl = ""
+		return "empty-typeurl"
+	}},
+	{"unsupported-typeurl", 2, func(w *world, g *gen) string { // well-known Tink key types without a Go implementation
+		t := w.target(g)
+		if t < 0 || kd(g, t) == nil {
+			return ""
+		}
+		kd(g, t).TypeUrl = []string{"type.googleapis.com/google.crypto.tink.AesEaxKey", "type.googleapis.com/google.crypto.tink.KmsAeadKey"}[w.rng.Intn(2)]
+		return "unsupported-typeurl"
+	}},
+	{"badutf8-typeurl", 1, func(w *world, g *gen) string {
+		t := w.target(g)
+		if t < 0 || kd(g, t) == nil {
+			return ""
+		}
+		kd(g, t).TypeUrl = kd(g, t).TypeUrl + "\xff\xfe"
+		return "badutf8-typeurl"
+	}},
+	{"other-typeurl", 5, func(w *world, g *gen) string { // the value of one key type under the URL of another
+		t := w.target(g)
+		if t < 0 || kd(g, t) == nil {
+			return ""
+		}
+		kd(g, t).TypeUrl = w.anyKey().KD.TypeUrl
+		return "other-typeurl"
+	}},
+	{"inner-field", 40, func(w *world, g *gen) string {
+		t := w.target(g)
+		if t < 0 || kd(g, t) == nil {
+			return ""
+		}
+		l := kslib.MutateInner(w.rng, kd(g, t))
+		if l == "" {
+			return ""
+		}
+		return "inner-" + l
+	}},
+	{"version", 6, func(w *world, g *gen) string {
+		t := w.target(g)
+		if t < 0 || kd(g, t) == nil {
+			return ""
+		}
+		if kslib.MutateVersion(w.rng, kd(g, t)) == "" {
+			return ""
+		}
+		return "version"
+	}},
+	{"point", 8, func(w *world, g *gen) string {
+		t := w.target(g)
+		if t < 0 {
+			return ""
+		}
+		if kd(g, t) == nil || kslib.MutatePoint(hlib.NewRng(1, "probe"), proto.Clone(kd(g, t)).(*tinkpb.KeyData)) == "" {
+			w.replace(g, t, w.pickFrom(w.poolWhere(func(pk *kslib.PoolKey) bool {
+				return strings.Contains(pk.Type, "Ec") || strings.Contains(pk.Type, "Hpke") || strings.Contains(pk.Name, "ECDSA")
+			})))
+		}
+		return kslib.MutatePoint(w.rng, kd(g, t))
+	}},
+	{"mismatch", 8, func(w *world, g *gen) string {
+		t := w.target(g)
+		if t < 0 {
+			return ""
+		}
+		if g.src[t] == nil || g.src[t].Alt == nil || kd(g, t) == nil {
+			w.replace(g, t, w.pickFrom(w.poolWhere(func(pk *kslib.PoolKey) bool { return pk.Alt != nil })))
+		}
+		return kslib.Mismatch(w.rng, kd(g, t), g.src[t].Alt)
+	}},
+	{"weak-rsa", 4, func(w *world, g *gen) string {
+		t := w.target(g)
+		if t < 0 || len(w.weakRSA) == 0 {
+			return ""
+		}
+		if g.src[t] == nil || !strings.Contains(g.src[t].Type, "Rsa") || kd(g, t) == nil {
+			w.replace(g, t, w.pickFrom(w.poolWhere(func(pk *kslib.PoolKey) bool { return strings.Contains(pk.Type, "Rsa") })))
+		}
+		r := w.weakRSA[w.rng.Intn(len(w.weakRSA))]
+		f := r.PrivFields()
+		if g.src[t].Priv >= 0 {
+			f = r.PubFields()
+		}
+		if err := kslib.SetFields(kd(g, t), f); err != nil {
+			return ""
+		}
+		return "weak-rsa"
+	}},
+}
+
+var mutTotal int
+
+func (w *world) mutate(g *gen) {
+	if mutTotal == 0 {
+		for _, m := range mutations {
+			mutTotal += m.weight
+		}
+	}
+	n := 1
+	switch r := w.rng.Intn(100); {
+	case r < 22:
+		n = 0
+	case r < 82:
+		n = 1
+	default:
+		n = 2
+	}
+	for i := 0; i < n; i++ {
+		for try := 0; try < 6; try++ {
+			x := w.rng.Intn(mutTotal)
+			var m *mutation
+			for j := range mutations {
+				if x < mutations[j].weight {
+					m = &mutations[j]
+					break
+				}
+				x -= mutations[j].weight
+			}
+			if l := m.f(w, g); l != "" {
+				g.kinds = append(g.kinds, l)
+				break
+			}
+		}
+	}
+	if w.rng.Chance(1) && len(g.ks.Key) > 0 { // always last: the other mutations assume non-nil entries
+		t := w.rng.Intn(len(g.ks.Key))
+		g.ks.Key[t], g.src[t] = nil, nil
+		g.kinds = append(g.kinds, "nil-key-entry")
+	}
+	if len(g.kinds) == 0 {
+		g.kinds = []string{"unmutated"}
+	}
+}
+
+// kindClass shortens "inner-bytes-truncate:key_value" to "inner-bytes-truncate" for the histogram.
+func kindClass(k string) string {
+	if i := strings.Index(k, ":"); i >= 0 {
+		return k[:i]
+	}
+	return k
+}
 
 func main() {
 	o := hlib.Open("c14")
 	defer o.Close()
-	t0 := time.Now()
-	p := kslib.BuildPool()
-	fmt.Println(len(p.Keys), p.Skipped, time.Since(t0))
-	for _, k := range p.Keys {
-		fmt.Println(k.Name, k.Class, k.Type, k.Prefix, k.KD.KeyMaterialType, len(k.KD.Value))
+	if pf := os.Getenv("VERIF_CPUPROFILE"); pf != "" {
+		f, _ := os.Create(pf)
+		pprof.StartCPUProfile(f)
+		defer pprof.StopCPUProfile()
 	}
-	o.Emit("K validate 7 -", "err", true)
+	w := &world{o: o, rng: hlib.NewRng(*hlib.FlagSeed, "c14"), byType: map[string][]int{}}
+	kslib.InstallDetRand(*hlib.FlagSeed)
+	w.pool = kslib.BuildPool()
+	for _, s := range w.pool.Skipped {
+		o.Count("pool-skipped/" + s)
+	}
+	for i, pk := range w.pool.Keys {
+		knownTypes[pk.Type] = true
+		w.byType[pk.Type] = append(w.byType[pk.Type], i)
+		o.Count("pool/" + pk.Class)
+	}
+	var errs []string
+	w.weakRSA, errs = kslib.WeakRSAKeys()
+	for _, e := range errs {
+		o.Count("weak-rsa-skipped/" + e)
+	}
+	kh, err := keyset.NewHandle(aead.AES256GCMKeyTemplate())
+	if err != nil {
+		panic(err)
+	}
+	if w.master, err = aead.New(kh); err != nil {
+		panic(err)
+	}
+	w.slhBudget = hlib.N(3, 30)
+	w.hugeBudget = hlib.N(2, 10)
+
+	// every pool key alone, unmutated: each key type is accepted and usable
+	for _, pk := range w.pool.Keys {
+		g := &gen{ks: &tinkpb.Keyset{}, kinds: []string{"pool-key"}}
+		k := &tinkpb.Keyset_Key{KeyData: clonePK(pk), Status: tinkpb.KeyStatusType_ENABLED, KeyId: w.rng.KeyID(), OutputPrefixType: pk.Prefix}
+		g.ks.Key, g.src, g.ks.PrimaryKeyId = []*tinkpb.Keyset_Key{k}, []*kslib.PoolKey{pk}, k.KeyId
+		r := w.check(g)
+		if !r.accepted {
+			o.Violate("pool key %s (%s) generated by the library is rejected by the reader", pk.Name, pk.Type)
+		} else if len(r.usable) == 0 {
+			o.Violate("pool key %s (%s): no factory yields a working primitive", pk.Name, pk.Type)
+		}
+	}
+	w.goSideNil()
+	for i, n := 0, hlib.N(5000, 100000); i < n; i++ {
+		g := w.genKeyset()
+		w.mutate(g)
+		w.check(g)
+	}
+	w.minStrength()
+	w.randomInputs()
+
 }
